@@ -671,6 +671,18 @@ fn main() {
             got.line_output(port, &delta.to_string(), if followup { "1" } else { "0" })
         ));
     }
+    // the same refusals over HTTP/2: every tenth case an HTTP/2 client can express, one request
+    // per connection so that handler entries are attributed exactly (no follow-up: field `1`)
+    let h2_cases: Vec<&Req> = list.iter().filter(|r| h2_expressible(r)).step_by(10).collect();
+    for rq in h2_cases {
+        let before = ctx.count(rq.ep);
+        let a = h2_batch(&rt, addr, std::slice::from_ref(rq)).pop().unwrap();
+        let delta = ctx.count(rq.ep) - before;
+        let mut got = digest(a.resp);
+        h2_normalise_echo(&mut got);
+        id += 1;
+        out.line(&format!("{} => {}", rq.line_input("bad2", id), got.line_output(a.port, &delta.to_string(), "1")));
+    }
     out.flush();
     rt.block_on(async {
         let _ = server.close().await;
